@@ -119,33 +119,9 @@ def run(ctx):
         f = ctx.fn(fid)
         if not f:
             continue
-        fl = vf.get_flow(f)
-        rt = cfg.find_calls(f, UPD + "retrieve_txs")
-        keyed = [(b, t) for b, t in rt if vf.has_field(vf.origins(f, t["a"][2]), c.LW + "slate::Slate", "id")]
-        dup = []
-        for x in cfg.comparisons(f):
-            if x.op in ("Eq", "Ne"):
-                lo, ro = fl.of_operand(x.l), fl.of_operand(x.r)
-                for a, b_ in ((lo, ro), (ro, lo)):
-                    if vf.has_field(a, c.LW + "types::TxLogEntry", "tx_type") and ("agg", TLT, ty) in b_ and vf.has_call(a, UPD + "retrieve_txs"):
-                        dup.append(x)
-        held = bool(keyed) and bool(dup)
-        if keyed:
-            from .shared import duplicate_lookup_complete
-            duplicate_lookup_complete(ctx, R3, f, keyed[0][0], keyed[0][1])
-        if held:
-            x = dup[0]
-            same = x.true_edges if x.op == "Eq" else x.false_edges
-            starts = [d for (_s, d) in same]
-            eb = set(ctx.eff.effect_blocks(f))
-            par = cfg.reach(f, starts=starts)
-            par2 = cfg.reach(f, starts=starts, cut_nodes=cfg.error_return_blocks(f))
-            held = bool(starts) and not any(b in par for b in eb) and not any(b in par2 for b in cfg.return_blocks(f))
-            # and no effect precedes the look-up
-            e = c.after_call_edges(f, UPD + "retrieve_txs")
-            pre = cfg.reach(f, cut_edges=e)
-            held = held and not any(b in pre for b in eb)
-        run.instance(R3, {"fn": pp.short(fid), "obligation": "an existing %s entry with this slate id => Err before any effect" % ty, "lookups_by_slate_id": len(keyed), "duplicate_tests": len(dup)}, held=held)
+        from .shared import replay_guard
+        held, info = replay_guard(ctx, R3, f, ty)
+        run.instance(R3, {"fn": pp.short(fid), "obligation": "an existing %s entry with this slate id => Err before any effect" % ty, "found": info}, held=held)
         if not held:
             run.finding(Finding(R3, fid, "no duplicate check (existing %s entry for this slate id) before the step's effects" % ty, site=f.loc()))
 
